@@ -2,6 +2,7 @@
 package main
 
 import (
+	"fmt"
 	"math/big"
 
 	"github.com/tuneinsight/lattigo/v6/ring"
@@ -158,12 +159,21 @@ func nBlocks(vals []*big.Int) int { return (len(vals) + N - 1) / N }
 
 // mustRing builds a ring or panics (harness-side misuse: all catalogue primes are NTT friendly).
 func mustRing(moduli []uint64) *ring.Ring {
+	k := fmt.Sprint(moduli)
+	if r, ok := ringCache[k]; ok {
+		return r
+	}
 	r, err := ring.NewRing(N, moduli)
 	if err != nil {
 		panic("c02: NewRing: " + err.Error())
 	}
+	ringCache[k] = r
 	return r
 }
+
+// rings are read-only once built (AtLevel returns shallow copies; all scratch lives in BasisExtender / Evaluator /
+// polynomials, which are created per leaf), so they are shared between leaves of a worker.
+var ringCache = map[string]*ring.Ring{}
 
 // crtCentered reconstructs coefficient j from rows (residues may be lazy / unreduced) and centres it.
 func crtCentered(rows [][]uint64, moduli []uint64, j int, M *big.Int) *big.Int {
